@@ -8,9 +8,9 @@ GUARD="-DYAEP_VERIF"; [ "${YV_GUARD:-on}" = off ] && GUARD=""
 COMMON="-g -I$OUT -I$REPO/src -I$H $GUARD -w"
 if [ "$MODE" = asan ]; then
   CC="clang"; CXX="clang++"
-  SAN="-O1 -fsanitize=address,undefined -fno-sanitize=pointer-overflow,function -fno-sanitize-recover=undefined -fno-omit-frame-pointer"
+  SAN="-O1 -no-pie -fno-pie -fsanitize=address,undefined -fno-sanitize=pointer-overflow,function -fno-sanitize-recover=undefined -fno-omit-frame-pointer"
 else
-  CC="gcc"; CXX="g++"; SAN="-O1"
+  CC="gcc"; CXX="g++"; SAN="-O1 -no-pie -fno-pie"
 fi
 bison -o "$OUT/sgramm.c" "$REPO/src/sgramm.y" 2>/dev/null
 pids=()
